@@ -137,7 +137,8 @@ def _single_next(e, lits):
 
 
 class _FuncInfo:
-    def __init__(self, f: Func, lits=()):
+    def __init__(self, f: Func, lits=(), dict_call_ok=None):
+        self.dict_from_call = {}  # tracked dict local -> the helper call it is bound from
         # flags: non-parameter locals whose every binding is `name = True/False`
         cand = {}
         bad = set()
@@ -201,8 +202,15 @@ class _FuncInfo:
                     if isinstance(n.ctx, ast.Store):
                         if isinstance(p_, ast.Assign) and len(p_.targets) == 1 and p_.targets[0] is n and ((isinstance(p_.value, ast.Dict) and not p_.value.keys) or (isinstance(p_.value, ast.Call) and isinstance(p_.value.func, ast.Name) and p_.value.func.id == "dict" and not p_.value.args and not p_.value.keywords)):
                             has_init = True
+                        elif isinstance(p_, ast.Assign) and len(p_.targets) == 1 and p_.targets[0] is n and isinstance(p_.value, ast.Call) and dict_call_ok is not None and dict_call_ok(p_.value):
+                            # bound from a helper of the module that returns a dictionary it fills from the lines it
+                            # reads (its summary tells how many lines are consumed when the dictionary stays empty)
+                            has_init = True
+                            self.dict_from_call[name] = p_.value
                         else:
                             okd = False
+                    elif isinstance(p_, ast.Return) and p_.value is n:
+                        has_const_load = True  # handed to the caller, who reads it
                     elif isinstance(p_, ast.Subscript) and p_.value is n:
                         if isinstance(p_.ctx, ast.Load) and isinstance(p_.slice, ast.Constant):
                             has_const_load = True
@@ -217,6 +225,7 @@ class _FuncInfo:
                 if okd and has_init and has_const_load:
                     self.empty_dicts.append(name)
         self.empty_dicts = self.empty_dicts[:2]
+        self.dict_from_call = {k: v for k, v in self.dict_from_call.items() if k in self.empty_dicts}
         self.flags = self.flags + ["#" + v for v in self.empty_dicts]
         # restore lists: a local list that only collects consumed lines (L.append(v), v assigned from next(<lit>)) and
         # is only used to push every one of them back (`for x in reversed(L): <lit>.back(x)`).  For the termination
@@ -327,8 +336,45 @@ class Consumption:
     def finfo(self, f: Func) -> _FuncInfo:
         fi = self.info.get(f.qualname)
         if fi is None:
-            fi = self.info[f.qualname] = _FuncInfo(f, self.lit_names(f))
+            fi = self.info[f.qualname] = _FuncInfo(f, self.lit_names(f), dict_call_ok=lambda call, f=f: self._dict_call_profile(f, call) is not None)
         return fi
+
+    def _dict_call_profile(self, f: Func, call):
+        """(min lines consumed when the returned dictionary is empty, ... when it is not) for a call of a module helper
+        that is handed the line iterator and returns a dictionary it builds; None if the callee is not of that kind."""
+        cs = self.callsite_of.get(id(call))
+        lits = self.lit_names(f)
+        if cs is None or cs.cls is not None or len(cs.callees) != 1 or not any(isinstance(a, ast.Name) and a.id in lits for a in call.args):
+            return None
+        h = cs.callees[0]
+        if h is f or h.module is not f.module or h.is_generator:
+            return None
+        cache = self.__dict__.setdefault("_dict_profiles", {})
+        if h.qualname in cache:
+            return cache[h.qualname]
+        cache[h.qualname] = None  # (guards recursion)
+        rets = [n for n in h.own_nodes() if isinstance(n, ast.Return)]
+        names = {n.value.id for n in rets if isinstance(n.value, ast.Name)}
+        if not rets or len(names) != 1 or any(not isinstance(n.value, ast.Name) for n in rets):
+            return None
+        hi = self.finfo(h)
+        flag = "#" + next(iter(names))
+        if flag not in hi.index:
+            return None
+        ex = self.walk(h, h.body, State({hi.init: 0}), frozenset())
+        st = Exits()
+        st.put("r", ex.get("return", State()))
+        st.put("r", ex.get("fall", State()))
+        i = hi.index[flag]
+        ce = cn = None
+        for k, v in (st.get("r") or {}).items():
+            if k[i] is not False:
+                ce = v if ce is None else min(ce, v)
+            if k[i] is not True:
+                cn = v if cn is None else min(cn, v)
+        prof = (CAP if ce is None else _clamp(ce), CAP if cn is None else _clamp(cn))
+        cache[h.qualname] = prof
+        return prof
 
     def lit_names(self, f: Func):
         s = set(self.lits.get(f.qualname, ()))
@@ -652,7 +698,15 @@ class Consumption:
                     st = self.refine(fi, st, ast.Name(id="#" + d, ctx=ast.Load()), False)
                 if T is ast.Assign:
                     for t in s.targets:
-                        if isinstance(t, ast.Name) and ("#" + t.id) in fi.index:
+                        if isinstance(t, ast.Name) and fi.dict_from_call.get(t.id) is s.value:
+                            # the dictionary comes from a helper: empty with the helper's cost of that case, filled
+                            # with the cost of the other (the statement cost above was the smaller of the two)
+                            prof = self._dict_call_profile(f, s.value)
+                            base_ = min(prof)
+                            st_e = self.assign_flag(fi, st.shifted(_addi(prof[0], -base_)) if prof[0] < CAP else State(), "#" + t.id, True) if prof[0] < CAP else State()
+                            st_n = self.assign_flag(fi, st.shifted(_addi(prof[1], -base_)), "#" + t.id, False) if prof[1] < CAP else State()
+                            st = st_e.joined(st_n)
+                        elif isinstance(t, ast.Name) and ("#" + t.id) in fi.index:
                             st = self.assign_flag(fi, st, "#" + t.id, True)
                         elif isinstance(t, ast.Subscript) and isinstance(t.value, ast.Name) and ("#" + t.value.id) in fi.index:
                             st = self.assign_flag(fi, st, "#" + t.value.id, False)
